@@ -33,6 +33,7 @@ Init == \E q \in Q0s, b \in Biases, init \in {0, 1}, m \in Mags, r \in Rates :
                    cell |-> IF q[1] = 0 THEN "pi" ELSE IF ~Within120(q) THEN "far"
                             ELSE IF q[4] * q[4] > q[1] * q[1] + q[2] * q[2] + q[3] * q[3] THEN "heading90"      \* heading > 90 deg off
                             ELSE IF q[1] * q[1] + q[4] * q[4] < q[2] * q[2] + q[3] * q[3] THEN "tilt90"       \* R33 < 0: tilt > 90 deg
+                            ELSE IF q[1] * q[1] + q[4] * q[4] = q[2] * q[2] + q[3] * q[3] THEN "tilt=90"      \* R33 = 0: body z exactly horizontal
                             ELSE "near"]
           /\ InBox(tv)
 Next == UNCHANGED tv
